@@ -504,7 +504,17 @@ def nested_rule(run, quick):
                 parts.append(rng.choice(FLAT_TEXT) if r < 0.5 else
                              ("{{{%s}}}" % rng.choice(FLAT_KEYS) if r < 0.8 else "{{{%s|%s}}}" % (rng.choice(FLAT_KEYS), rng.choice(FLAT_DEFAULTS))))
             return "".join(parts)
-        libn = [["O", body(), False]] + [[nm, body(), False] for nm in ("I", "J") if rng.random() < 0.85]
+        def obody():
+            # half of the outer bodies also hold calls (plain names and arguments) to the other templates
+            if rng.random() < 0.5:
+                return body()
+            parts = []
+            for _ in range(rng.randint(1, 4)):
+                r = rng.random()
+                parts.append(rng.choice(FLAT_TEXT) if r < 0.35 else ("{{{%s}}}" % rng.choice(FLAT_KEYS) if r < 0.6 else
+                             "{{" + "|".join([rng.choice(["i", "j", "nosuch"])] + [rng.choice(FLAT_ARGS) for _ in range(rng.randint(0, 2))]) + "}}"))
+            return "".join(parts)
+        libn = [["O", obody(), False]] + [[nm, body(), False] for nm in ("I", "J") if rng.random() < 0.85]
 
         def inner():
             nm = rng.choice(["i", "j", "I", "nosuch"])
@@ -543,21 +553,21 @@ def nested_rule(run, quick):
         idx.append(i)
     imports = IMPORTS + ["Model.FlatCall"]
     ty = "list tpl * list enc * str"
-    outside, errs = lib.coq_eval_failing("c04n0", imports, ty, coq_cases, "fun '(l, a, o) => nested_ok parser_functions l [111] a", chunk=300)
+    outside, errs = lib.coq_eval_failing("c04n0", imports, ty, coq_cases, "fun '(l, a, o) => two_level_ok parser_functions l [111] a", chunk=300)
     for e in errs:
         run.correspondence_break("model evaluation failed (nested calls)", None, error=e)
     for b in outside:
-        run.correspondence_break("a generated nested call is outside the fragment of Model.FlatCall.nested_ok", cases[idx[b]])
-    bad, errs = lib.coq_eval_failing("c04n", imports, ty, coq_cases, "fun '(l, a, o) => str_eqb (codes (nested_result l [111] a)) o", chunk=300)
+        run.correspondence_break("a generated nested call is outside the fragment of Model.FlatCall.two_level_ok", cases[idx[b]])
+    bad, errs = lib.coq_eval_failing("c04n", imports, ty, coq_cases, "fun '(l, a, o) => str_eqb (codes (two_level_result l [111] a)) o", chunk=300)
     for e in errs:
         run.correspondence_break("model evaluation failed (nested rule)", None, error=e)
     for b in bad:
         if b in outside:
             continue
         c = cases[idx[b]]
-        want = lib.coq_eval_term(imports, "(fun '(l, a, o) => codes (nested_result l [111] a)) (%s)" % coq_cases[b])
+        want = lib.coq_eval_term(imports, "(fun '(l, a, o) => codes (two_level_result l [111] a)) (%s)" % coq_cases[b])
         run.property_failure("c04:nested-call-differs-from-the-transclusion-rule",
-                             "expand(%r) with templates %r gave %r; the rule (Model.FlatCall.nested_result) gives code points %s"
+                             "expand(%r) with templates %r gave %r; the rule (Model.FlatCall.two_level_result) gives code points %s"
                              % (c["page"], c["lib"], res[idx[b]]["out"], " ".join(want.split())[:300]), c)
     run.extra["nested_calls_checked_against_the_rule"] = len(coq_cases)
 
